@@ -306,11 +306,13 @@ def obligations_converter(rep, repo, m):
     if it not in (f"np.unique({param})", f"set({param})", f"sorted(set({param}))", param):
         raise AnalysisError(f"unrecognised idiom: {cons} iterates over `{it}`")
     call = store = None
-    for s in loop.body:
+    for s in ast.walk(ast.Module(body=loop.body, type_ignores=[])):
         if isinstance(s, ast.Assign) and isinstance(s.value, ast.Subscript) and isinstance(s.value.value, ast.Call) \
                 and norm(s.value.value.func).endswith("_get_degree_and_size"):
             call = s
-        if isinstance(s, ast.Assign) and isinstance(s.targets[0], ast.Subscript):
+    for s in loop.body:  # the positional store into the result array is a top-level statement of the loop
+        if isinstance(s, ast.Assign) and isinstance(s.targets[0], ast.Subscript) and \
+                any(isinstance(x, ast.Name) and x.id == param for x in ast.walk(s.targets[0].slice)):
             store = s
     if call is None or store is None:
         raise AnalysisError(f"unrecognised idiom: {cons} loop body")
